@@ -1128,7 +1128,8 @@ class Interp:
                 txt = None
             return Fraction(repr(v))
         if isinstance(v, bytes):
-            return Opaque("bytes")
+            from . import lib as _lib
+            return _lib.SBytes([("lit", v)] if v else [])
         return v
 
     def ev_Name(self, node, env, mod):
